@@ -891,6 +891,14 @@ Definition html_env : env := Env [(L_html, NS_XHTML)] true.
 
 Definition rel_is (r : option str) (s : str) : bool := opt_str_eqb r s.
 
+(* the loop over the alternatives of a list: first matching alternative wins *)
+Fixpoint sl_loop (mc : sel -> M bool) (is_not nonempty : bool) (ss : list sel) : M bool :=
+  match ss with
+  | [] => ret (if nonempty then is_not else false)
+  | SNull :: ss' => sl_loop mc is_not nonempty ss'
+  | s :: ss' => mdo ok <- mc s ;;; if ok then ret (negb is_not) else sl_loop mc is_not nonempty ss'
+  end.
+
 Fixpoint match_selectors (fuel : nat) (e : env) (p : path) (l : sellist) : M bool :=
   match fuel with
   | O => raise OutOfFuel
@@ -900,17 +908,12 @@ Fixpoint match_selectors (fuel : nat) (e : env) (p : path) (l : sellist) : M boo
     let e' := if is_html then html_env else e in
     if is_html && negb (c_is_html cx) then ret false
     else
-      (fix go (ss : list sel) : M bool :=
-         match ss with
-         | [] => ret (match sl_sels l with [] => false | _ => is_not end)
-         | s :: ss' =>
-           match s with
-           | SNull => go ss'
-           | Sel tag ids classes attrs nth subs relation rel_type contains lang flags =>
-             mdo ok <- match_compound f e' p tag ids classes attrs nth subs relation contains lang flags ;;;
-             if ok then ret (negb is_not) else go ss'
-           end
-         end) (sl_sels l)
+      sl_loop (fun s => match s with
+                        | SNull => ret false
+                        | Sel tag ids classes attrs nth subs relation rel_type contains lang flags =>
+                          match_compound f e' p tag ids classes attrs nth subs relation contains lang flags
+                        end)
+              is_not (match sl_sels l with [] => false | _ => true end) (sl_sels l)
   end
 with match_compound (fuel : nat) (e : env) (p : path) (tag : option stag) (ids classes : list str)
        (attrs : list sattr) (nth : list snth) (subs : list sellist) (relation : sellist)
